@@ -353,6 +353,17 @@ class PipeWorld(World):
         else:
             from ndn import app as appv1
             self.app = appv1.NDNApp(face=self.face, keychain=_StubKeychain())
+        self.disp = None
+        if self.cfg.get('dispatcher') and self.fe == 'v1':
+            # app_support.Dispatcher behind a root route of the legacy front-end
+            from ndn.app_support.dispatcher import Dispatcher
+            self.disp = Dispatcher()
+            disp_world = self
+
+            def root(iname, param, app_param, **kw):
+                ret = disp_world.disp.dispatch(iname, param, app_param)
+                disp_world.log('dispatch-ret', nonce=param.nonce, name=[bytes(c) for c in iname], ret=ret)
+            self.app.set_interest_filter('/', root)
         orig = self.face.callback
         world = self
 
@@ -579,7 +590,9 @@ class PipeWorld(World):
                                                 content_bytes(rs.get('content', 4)), signer=DigestSha256Signer()))
                     world.after(rs.get('delay_us', 0), world._do_put, hid, param.nonce, k, dwire)
         try:
-            if self.fe == 'v2':
+            if self.disp is not None:
+                self.disp.register(name, handler)
+            elif self.fe == 'v2':
                 self.app.attach_handler(name, handler, validator)
             else:
                 self.app.set_interest_filter(name, handler, validator)
@@ -616,7 +629,9 @@ class PipeWorld(World):
     def op_detach(self, op):
         name = name_in_repr(op['prefix'], op.get('repr', 'uri'))
         try:
-            if self.fe == 'v2':
+            if self.disp is not None:
+                self.disp.unregister(name)
+            elif self.fe == 'v2':
                 self.app.detach_handler(name)
             else:
                 self.app.unset_interest_filter(name)
